@@ -4,16 +4,18 @@
    expression tree of the grammar's tree language — there is no accepted input
    whose AST is malformed and fails only when searched; every input is either
    accepted or rejected at compile time (Compile always returns).
-   The full statement "accepts exactly the renderings of the well-precedenced
-   trees" is Proofs/ParserSound.v + Proofs/Pratt.v (see the theorems at the end
-   of this file when present); until both are complete it is covered by this
-   check's correspondence run: exhaustive token strings up to a length bound,
-   mutated valid expressions, the fuzz corpus and generated trees, compared
-   between library, model and specification (wp / compile). *)
+   (completeness) every grammatical sentence is accepted: the parser, on any
+   token list that spells a well-precedenced tree of the grammar, returns the AST
+   of that tree (C04_grammatical_is_accepted, Proofs/ParserComplete.v).
+   Not a theorem: that an accepted token list is always the spelling of the
+   tree it yields (no ungrammatical sentence slips through with a well-formed
+   AST); this is covered by the run: exhaustive token strings up to a length
+   bound, mutated valid expressions, the fuzz corpus and a list of expectations
+   written from the grammar, compared between library, model and specification. *)
 From Coq Require Import Floats Permutation.
-From JM Require Import Model.Base Model.Num Model.Value Model.Lexer Model.Parser Model.Interp Model.Api
+From JM Require Import Model.Base Model.Num Model.Value Model.JsonText Model.Lexer Model.Parser Model.Interp Model.Api
      Spec.Grammar Spec.Semantics Proofs.ValueFacts Proofs.InterpRefine Proofs.CompileTotal Proofs.ParserShape
-     Proofs.SearchTotal Proofs.ApiFacts Inst.FloatNum Run.Checker.
+     Proofs.SearchTotal Proofs.ApiFacts Proofs.ParserTotal Proofs.ParserComplete Inst.FloatNum Run.Checker.
 
 Section C04.
 Context {NumO : NumOps}.
@@ -41,9 +43,24 @@ Theorem C04_accepted_evaluates_as_its_tree :
               forall d, plain d = true -> search_compiled ord n d = eval ord x d.
 Proof. exact (compiled_is_tree ord ord_perm). Qed.
 
+(* every sentence of the grammar is accepted, with the AST of its tree: for any
+   token list that spells a well-precedenced tree (types and values; positions
+   free) and ends in its only EOF.  lit_text: the JSON text chosen for a literal,
+   assumed to be read back as that literal. *)
+Variable lit_text : value -> bytes.
+Hypothesis lit_ok : forall v, is_json v = true -> json_unmarshal (lit_text v) = Some v.
+
+Theorem C04_grammatical_is_accepted :
+  forall (x : expr) (ts : list token),
+    wp x = true -> wf_tokens ts ->
+    Spell ts 0 (render lit_text x ++ [tk tEOF []]) ->
+    parse_tokens ts = Ok (compile x).
+Proof. exact (parse_tokens_complete lit_text lit_ok). Qed.
+
 End C04.
 
 Print Assumptions C04_accept_or_reject.
+Print Assumptions C04_grammatical_is_accepted.
 Print Assumptions C04_accepted_is_a_tree.
 Print Assumptions C04_accepted_evaluates_as_its_tree.
 
